@@ -797,6 +797,8 @@ from mlmverif.selfcheck import B, OK  # noqa: E402
 
 _F = 'chainables/courier_server.py'
 VARIANTS = [
+    OK('dequeued-value-through-a-local', 'utils/iter_utils.py',
+       "          value = self.get_nowait()\n", "          item = self.get_nowait()\n          value = item\n"),
     OK('next-batch-queue-through-a-local', 'chainables/courier_server.py',
        "      result = self._generator.get_batch(batch_size, block=True)", "      prefetched = self._generator\n      result = prefetched.get_batch(batch_size, block=True)"),
     OK('put-through-a-local', 'utils/iter_utils.py',
